@@ -988,6 +988,8 @@ func (tb *TB) OrN(ts ...*Term) *Term {
 }
 
 // Show renders a term for diagnostics (bounded depth).
+var showDepth = 4
+
 func (tb *TB) Show(t *Term) string {
 	var sb strings.Builder
 	var rec func(t *Term, d int)
@@ -1025,6 +1027,6 @@ func (tb *TB) Show(t *Term) string {
 		}
 		sb.WriteString(")")
 	}
-	rec(t, 4)
+	rec(t, showDepth)
 	return sb.String()
 }
